@@ -22,8 +22,9 @@ class Scenario:
         self.cl = T.build_class(self.spec, intern)
         self.kw_seen = T.seen_kw_only(self.cl)
         self.forbid = (rng.random() < 0.4) if forbid is None else forbid
-        self.use_alias = rng.random() < 0.3
-        self.incl = rng.random() < 0.3
+        self.use_alias = rng.random() < 0.4
+        # attributes with init=False only matter when the hook handles them: correlate the option with their presence
+        self.incl = rng.random() < (0.65 if any(not f.init for f in self.spec.fields) else 0.2)
         self.oid = rng.random() < 0.3
         self.ovs = T.gen_overrides(rng, self.spec, allow_unsafe=allow_unsafe) if with_overrides and rng.random() < 0.6 else {}
         self.hooks = {}
